@@ -196,14 +196,14 @@ theorem parseMorph_wildcard (var chars : Str) (h : morphOK '?' var chars = true)
 
 /-! ### definitions -/
 
-theorem parseTerms_toksTerms (t : Term) (ts : Terms) (hw : wfTerms (.cons t ts) = true) :
-    ∃ n0, ∀ n, n0 ≤ n → ∀ rest, noAmp rest →
-      parseTerms n (toksTerms (.cons t ts) ++ rest) = .ok ((canonTerms (.cons t ts)).toList, rest) := by
+theorem parseTerms_toksTerms (t : Term) (ts : Terms) (hw : wfTerms (.cons t ts) = true) (n : Nat)
+    (hn : 6 * (toksTerms (.cons t ts)).length + 2 ≤ n) (rest : List Tok) (hr : noAmp rest) :
+    parseTerms n (toksTerms (.cons t ts) ++ rest) = .ok ((canonTerms (.cons t ts)).toList, rest) := by
   simp only [wfTerms, Bool.and_eq_true] at hw
   have ht := (main (sizeOf t)).1 t (Nat.le_refl _) hw.1
-  obtain ⟨n0, h⟩ := (main (sizeOf ts)).2.2.1 ts (Nat.le_refl _) hw.2 t ht
-  refine ⟨n0, fun n hn rest hr => ?_⟩
-  simpa [toksTerms, canonTerms, Terms.toList] using h n hn rest hr
+  obtain ⟨n0, b, h⟩ := (main (sizeOf ts)).2.2.1 ts (Nat.le_refl _) hw.2 t ht
+  simp only [toksTerms, List.length_append] at hn
+  simpa [toksTerms, canonTerms, Terms.toList] using h n (by omega) rest hr
 
 theorem isTypeTerm_canon (t : Term) : isTypeTerm (canonTerm t) = isTypeTerm t := by
   cases t <;> simp [canonTerm, isTypeTerm]
@@ -247,7 +247,7 @@ def envOK : Option Bool → List (Option Bool) → List Item → Bool
 /-- one item: if the rest of the file parses (in the environment state after the item), the item
 followed by the rest parses to `canonItem x` followed by that result -/
 def PI (x : Item) : Prop :=
-  ∃ m0, ∀ m, m0 ≤ m → ∀ (n : Nat) (cur : Option Bool) (stack : List (Option Bool)) (R : List Tok)
+  ∀ m, 6 * (toksItem x).length ≤ m → ∀ (n : Nat) (cur : Option Bool) (stack : List (Option Bool)) (R : List Tok)
     (its : List Item) (cs : Option Bool × List (Option Bool)),
     envStep cur stack x = some cs → parseItems n m cs.1 cs.2 R = .ok its →
     parseItems (n + 1) m cur stack (toksItem x ++ R) = .ok (canonItem x :: its)
@@ -258,11 +258,12 @@ theorem pi_typedef (id : Str) (ts : Terms) (doc : Option Str) (hw : wfItem (.typ
   | nil => simp [wfItem, termsNonempty] at hw
   | cons t ts =>
     simp only [wfItem, termsNonempty, Bool.true_and, Bool.and_eq_true] at hw
-    obtain ⟨m0, h⟩ := parseTerms_toksTerms t ts hw.1
-    refine ⟨m0, fun m hm n cur stack R its cs hstep hrec => ?_⟩
+    intro m hm n cur stack R its cs hstep hrec
     simp only [envStep, Option.some.injEq] at hstep
     subst hstep
-    have hp := h m hm (docTok doc ++ .dot :: R) (noAmp_docdot doc R)
+    have hp := parseTerms_toksTerms t ts hw.1 m
+      (by simp only [toksItem, List.length_cons, List.length_append] at hm; omega)
+      (docTok doc ++ .dot :: R) (noAmp_docdot doc R)
     have hs : startsTerm (toksTerms (.cons t ts) ++ (docTok doc ++ .dot :: R)) := by
       simp only [toksTerms, List.append_assoc]; exact toksTerm_starts t _
     have hd := parseDef_typedef m id ":=".toList _ _ _ hs hp (by rw [any_type_canon]; exact hw.2)
@@ -278,18 +279,19 @@ theorem pi_addendum (id : Str) (ts : Terms) (doc : Option Str) (hw : wfItem (.ad
     cases doc with
     | none => simp at hw
     | some d =>
-      refine ⟨0, fun m hm n cur stack R its cs hstep hrec => ?_⟩
+      intro m hm n cur stack R its cs hstep hrec
       simp only [envStep, Option.some.injEq] at hstep
       subst hstep
       simp only [] at hrec
       simp [toksItem, toksTerms, docTok, parseItems, parseDef, hrec, canonItem, canonTerms]
   | cons t ts =>
     simp only [wfItem] at hw
-    obtain ⟨m0, h⟩ := parseTerms_toksTerms t ts hw
-    refine ⟨m0, fun m hm n cur stack R its cs hstep hrec => ?_⟩
+    intro m hm n cur stack R its cs hstep hrec
     simp only [envStep, Option.some.injEq] at hstep
     subst hstep
-    have hp := h m hm (docTok doc ++ .dot :: R) (noAmp_docdot doc R)
+    have hp := parseTerms_toksTerms t ts hw m
+      (by simp only [toksItem, List.length_cons, List.length_append] at hm; omega)
+      (docTok doc ++ .dot :: R) (noAmp_docdot doc R)
     have hs : startsStrong (toksTerms (.cons t ts) ++ (docTok doc ++ .dot :: R)) := by
       simp only [toksTerms, List.append_assoc]; exact toksTerm_startsStrong t _
     have hd := parseDef_addendum m id _ _ _ hs hp
@@ -303,11 +305,12 @@ theorem pi_lexrule (id a : Str) (pats : List (Str × Str)) (ts : Terms) (doc : O
   | nil => simp [wfItem, termsNonempty] at hw
   | cons t ts =>
     simp only [wfItem, termsNonempty, Bool.true_and, Bool.and_eq_true] at hw
-    obtain ⟨m0, h⟩ := parseTerms_toksTerms t ts hw.1
-    refine ⟨m0, fun m hm n cur stack R its cs hstep hrec => ?_⟩
+    intro m hm n cur stack R its cs hstep hrec
     simp only [envStep, Option.some.injEq] at hstep
     subst hstep
-    have hp := h m hm (docTok doc ++ .dot :: R) (noAmp_docdot doc R)
+    have hp := parseTerms_toksTerms t ts hw.1 m
+      (by simp only [toksItem, List.length_cons, List.length_append] at hm; omega)
+      (docTok doc ++ .dot :: R) (noAmp_docdot doc R)
     have hs : startsTerm (toksTerms (.cons t ts) ++ (docTok doc ++ .dot :: R)) := by
       simp only [toksTerms, List.append_assoc]; exact toksTerm_starts t _
     have hpat := takeAffixPats_ok pats _ hw.2 hs
